@@ -46,10 +46,10 @@ def run(rep):
     F, repo, ref = tables.write_tablesdata(d, repo_dir, ref_dir, names)
     rep.extra["frac_bits"] = F
     cfg = os.path.join(d, "tables.cfg")
-    tlc.write_cfg(cfg, {"MaxLoads": 4}, ["LoadReturnsTable", "TableOK"])
+    tlc.write_cfg(cfg, {"MaxLoads": 4, "SharedBuf": False}, ["LoadReturnsTable", "HeldStable", "TableOK"])
     # one worker: TLC's lazy evaluation of the (large) constant tables is not safe to share between workers
     res = tlc.run_one("Tables", cfg, 1, "Tables", coverage=True, tla_library=d, timeout=1500)
-    res.invariants = ["LoadReturnsTable", "TableOK"]
+    res.invariants = ["LoadReturnsTable", "HeldStable", "TableOK"]
     rep.add_tlc(res, "Tables")
     for e in res.errors[:3]:
         rep.fail("Tables: TLC error: %s" % e[:300])
@@ -68,19 +68,25 @@ def run(rep):
     events = []
     _verif.set_sink(lambda ev, f: events.append((ev, dict(f))))
     coeffs.COEFF_CACHE.clear()
+    held = []          # (what, arrays, fingerprint at return): everything a caller might still hold (HeldStable)
     try:
-        for rnd in (1, 2):
-            for n in LEVEL1:
+        for rnd in (1, 2, 3):
+            order1 = LEVEL1 if rnd != 2 else LEVEL1[::-1]
+            order2 = QSHIFT if rnd != 2 else QSHIFT[::-1]
+            for n in order1:
                 a = coeffs.level1(n, compact=True)
                 b = coeffs.biort(n)
+                held.append(("level1('%s', compact=True), load #%d" % (n, rnd), a, fp(a)))
+                held.append(("biort('%s'), load #%d" % (n, rnd), b, fp(b)))
                 keys = ("h0o", "g0o", "h1o", "g1o") + (("h2o", "g2o") if n == "near_sym_b_bp" else ())
                 want = [repo[n][k] for k in keys]
                 rep.validated()
                 if fp(a) != fp([w.reshape(-1, 1) for w in want]) or fp(a) != fp(b):
                     rep.violation("level1('%s') (load #%d) does not return the shipped h0o,g0o,h1o,g1o arrays" % (n, rnd),
                                   {"api": "coeffs.level1", "check": "loader", "name": n, "round": rnd})
-            for n in QSHIFT:
+            for n in order2:
                 a = coeffs.qshift(n)
+                held.append(("qshift('%s'), load #%d" % (n, rnd), a, fp(a)))
                 keys = ("h0a", "h0b", "g0a", "g0b", "h1a", "h1b", "g1a", "g1b") + (
                     ("h2a", "h2b", "g2a", "g2b") if n == "qshift_b_bp" else ())
                 want = [repo[n][k] for k in keys]
@@ -88,6 +94,14 @@ def run(rep):
                 if fp(a) != fp([w.reshape(-1, 1) for w in want]):
                     rep.violation("qshift('%s') (load #%d) does not return the shipped arrays in the documented order" % (n, rnd),
                                   {"api": "coeffs.qshift", "check": "loader", "name": n, "round": rnd})
+        # what was handed out earlier must still show the same values after all the other loads (no shared buffers)
+        for what, arrs, f0 in held:
+            rep.validated()
+            if fp(arrs) != f0:
+                rep.violation("the arrays returned by %s changed after later loads of other tables (a returned table is not stable: "
+                              "loading twice does not give equal values to a caller that keeps the first result)" % what,
+                              {"api": "coeffs", "check": "held_stable", "what": what})
+                break
     finally:
         _verif.set_sink(None)
     # hit/miss discipline of the cache as the loader model has it: first load of a name misses, later ones hit
